@@ -472,7 +472,13 @@ func ruleSkipDiscipline(c *Ctx, rule string, exceptions map[string]string) {
 	}
 }
 
-func describeIndex(v ssa.Value) string {
+func describeIndex(v ssa.Value) string { return describeIndexD(v, 0) }
+
+func describeIndexD(v ssa.Value, depth int) string {
+	if depth > 6 {
+		return "..."
+	}
+	describeIndex := func(v ssa.Value) string { return describeIndexD(v, depth+1) }
 	switch x := v.(type) {
 	case nil:
 		return "?"
